@@ -174,6 +174,42 @@ pub async fn exec(app: &Arc<AppShareData>, op: &Value) -> Value {
                 let snap = store.do_log_compaction().await?;
                 Ok(json!({"res":"ok","index":snap.index,"term":snap.term}))
             }
+            "append_req" => {
+                let req: ClientRequest = serde_json::from_value(op["req"].clone())?;
+                let e = Entry { term: op["term"].as_u64().unwrap(), index: op["index"].as_u64().unwrap(), payload: EntryPayload::Normal(EntryNormal { data: req }) };
+                match store.append_entry_to_log(&e).await {
+                    Ok(_) => Ok(json!({"res":"ok"})),
+                    Err(e) => Ok(json!({"res":"error","err":e.to_string()})),
+                }
+            }
+            "apply" => {
+                let req: ClientRequest = serde_json::from_value(op["req"].clone())?;
+                let idx = op["index"].as_u64().unwrap();
+                match store.apply_entry_to_state_machine(&idx, &req).await {
+                    Ok(resp) => Ok(json!({"res":"ok","resp":serde_json::to_value(&resp).unwrap_or(Value::Null)})),
+                    Err(e) => Ok(json!({"res":"error","err":e.to_string()})),
+                }
+            }
+            "apply_batch" => {
+                let reqs: Vec<(u64, ClientRequest)> = op["items"].as_array().unwrap().iter().map(|it| (it["index"].as_u64().unwrap(), serde_json::from_value(it["req"].clone()).unwrap())).collect();
+                let refs: Vec<(&u64, &ClientRequest)> = reqs.iter().map(|(i, r)| (i, r)).collect();
+                match store.replicate_to_state_machine(&refs).await {
+                    Ok(_) => Ok(json!({"res":"ok"})),
+                    Err(e) => Ok(json!({"res":"error","err":e.to_string()})),
+                }
+            }
+            "target_addr" => match store.get_target_addr(op["id"].as_u64().unwrap()).await {
+                Ok(a) => Ok(json!({"res":"ok","addr":a.as_str()})),
+                Err(_) => Ok(json!({"res":"ok","addr":Value::Null})),
+            },
+            "membership" => {
+                let m = store.get_membership_config().await?;
+                let mut members: Vec<u64> = m.members.iter().cloned().collect();
+                members.sort();
+                let mut after: Vec<u64> = m.members_after_consensus.clone().unwrap_or_default().into_iter().collect();
+                after.sort();
+                Ok(json!({"res":"ok","members":members,"after":after}))
+            }
             "sleep" => {
                 tokio::time::sleep(std::time::Duration::from_millis(op["ms"].as_u64().unwrap_or(100))).await;
                 Ok(json!({"res":"ok"}))
